@@ -68,7 +68,8 @@ def cached_source(facts):
     def arc_of(f, suffix):
         return shape_is(f['shape'], 'sync::Arc') and shape_is(shape_arg(f['shape']), suffix)
     maps = one([f for f in fs if arc_of(f, 'DashMap')], 'CachedSource: Arc<DashMap<..>> field')
-    h = one([f for f in fs if arc_of(f, 'OnceLock')], 'CachedSource: Arc<OnceLock<..>> field')
+    h = one([f for f in fs if arc_of(f, 'OnceLock') and isinstance(shape_arg(shape_arg(f['shape'])), dict)
+             and shape_arg(shape_arg(f['shape'])).get('prim') == 'u64'], 'CachedSource: Arc<OnceLock<u64>> field')
     inner = one([f for f in fs if shape_is(f['shape'], 'sync::Arc')
                  and isinstance(shape_arg(f['shape']), dict) and 'param' in shape_arg(f['shape'])],
                 'CachedSource: Arc<T> field')
